@@ -575,6 +575,12 @@ stage("modcount_modulo")(
 stage("modcount_start_step", extra=("num",))(
   (lambda P, i, p: P.lsy.modulo_counter(i[0], 256., i[1]),
    lambda i, p: M.m_lockstep(i)))
+stage("modcount_start_modulo", extra=("num",))(
+  (lambda P, i, p: P.lsy.modulo_counter(i[0], i[1], 1.),
+   lambda i, p: M.m_lockstep(i)))
+stage("modcount_modulo_step", extra=("num",))(
+  (lambda P, i, p: P.lsy.modulo_counter(0., i[0], i[1]),
+   lambda i, p: M.m_lockstep(i)))
 stage("modcount_all", extra=("num", "num"))(
   (lambda P, i, p: P.lsy.modulo_counter(i[0], i[1], i[2]),
    lambda i, p: M.m_lockstep(i)))
